@@ -61,7 +61,8 @@ def argv_of(row):
 
 def small_blocks(tier, seed):
     arith = [gen.frag(x, "*") for x in ["ADD", "SUB", "MUL", "PUSH 1", "PUSH 0", "PUSH 2", "DUP1", "DUP2", "SWAP1", "SWAP2", "POP", "ISZERO",
-                                        "AND", "LT", "PUSH 1 ADD", "CALLER", "NOT"]]
+                                        "AND", "LT", "PUSH 1 ADD", "CALLER", "NOT", "ADDMOD", "MULMOD", "SWAP2 ADDMOD", "PUSH 7 SWAP2",
+                                        "DIV", "SWAP1 SUB", "SLT"]]
     mem = gen.mem_vocab(small=True)[:10] + [gen.frag(x, "*") for x in ["MLOAD", "MSTORE", "SLOAD", "SSTORE", "POP", "DUP1", "SWAP1", "ADD"]]
     a1, _ = gen.enumerate_blocks(arith, [["*"], ["*", "*"], ["*", "*", "*"]], 3)
     m1, _ = gen.enumerate_blocks(mem, [["*"], ["*", "*"]], 3)
